@@ -956,6 +956,9 @@ class MetricFrame:
                 continue
 
             col_name = f"{name}_{param_name}"
+            while col_name in all_data.columns:
+                # e.g. metric "a" with parameter "b_w" and metric "a_b" with parameter "w"
+                col_name = f"{col_name}_"
             all_data[col_name] = np.asarray(param_value)
             kw_argument_mapping[param_name] = col_name
 
